@@ -635,6 +635,97 @@ def gen_bench():
 GENERATORS = {"Consts.v": gen_consts, "StopTests.v": gen_stoptests, "Handlers.v": gen_handlers, "Bench.v": gen_bench, "Memory.v": gen_memory}
 
 
+# ----------------------------------------------------------------------------- NumPy vector leaf functions (base.py)
+class VecExpr:
+    """Translation of the NumPy expressions of the leaf functions of base.py to the vector operations of Model/FloatVec.v
+    (each of which is one IEEE operation per element).  Typed: every sub-expression is a vector ('v'), a scalar float ('f') or
+    a boolean ('b').  Fail-closed: any construct outside the list below aborts the generation."""
+
+    def __init__(self, env):
+        self.env = env  # python name -> (coq term, type)
+
+    def tr(self, n):
+        if isinstance(n, ast.Name):
+            if n.id not in self.env:
+                raise TranslateError(f"unknown name {n.id}")
+            return self.env[n.id]
+        if isinstance(n, ast.BinOp) and isinstance(n.op, (ast.Sub, ast.Add)):
+            (a, ta), (b, tb) = self.tr(n.left), self.tr(n.right)
+            if ta == tb == "v":
+                return (f"({'vsub' if isinstance(n.op, ast.Sub) else 'vadd'} {a} {b})", "v")
+            raise TranslateError("unsupported operand types in " + ast.unparse(n))
+        if isinstance(n, ast.Call) and isinstance(n.func, ast.Attribute) and isinstance(n.func.value, ast.Name) and n.func.value.id == "np" and not n.keywords:
+            f = n.func.attr
+            args = [self.tr(a) for a in n.args]
+            if f == "clip" and [t for _, t in args] == ["v", "v", "v"]:
+                return (f"(vclip {args[0][0]} {args[1][0]} {args[2][0]})", "v")
+            if f == "abs" and [t for _, t in args] == ["v"]:
+                return (f"(List.map PrimFloat.abs {args[0][0]})", "v")
+            if f == "max" and [t for _, t in args] == ["v"]:
+                return (f"(vmax {args[0][0]})", "f")
+            raise TranslateError("unsupported numpy call " + ast.unparse(n))
+        # np.isinf(arr).any()
+        if isinstance(n, ast.Call) and isinstance(n.func, ast.Attribute) and n.func.attr == "any" and not n.args and not n.keywords:
+            inner = n.func.value
+            if isinstance(inner, ast.Call) and ast.unparse(inner.func) == "np.isinf" and len(inner.args) == 1:
+                a, ta = self.tr(inner.args[0])
+                if ta == "v":
+                    return (f"(any_inf {a})", "b")
+        # any([<bool expr in arr> for arr in arrs])
+        if isinstance(n, ast.Call) and isinstance(n.func, ast.Name) and n.func.id == "any" and len(n.args) == 1 and isinstance(n.args[0], (ast.ListComp, ast.GeneratorExp)):
+            lc = n.args[0]
+            if len(lc.generators) == 1 and not lc.generators[0].ifs and isinstance(lc.generators[0].target, ast.Name):
+                it, tit = self.tr(lc.generators[0].iter)
+                if tit == "lv":
+                    var = lc.generators[0].target.id
+                    sub = VecExpr(dict(self.env, **{var: (var, "v")}))
+                    body, tb = sub.tr(lc.elt)
+                    if tb == "b":
+                        return (f"(List.existsb (fun {var} => {body}) {it})", "b")
+        raise TranslateError("unsupported vector expression " + ast.unparse(n))
+
+
+def gen_base():
+    tree = ast.parse(_src("base.py"))
+    L = ["(* GENERATED from /repo/lbfgsb/base.py and main.py by harness/translate.py - do not edit *)",
+         "From Coq Require Import List Floats.PrimFloat.", "From LBFGSB Require Import Model.FloatVec.", "Import ListNotations.", ""]
+    # projgr: a single return statement
+    fn = _func(tree, "projgr")
+    args = [a.arg for a in fn.args.args]
+    if args != ["x", "grad", "lb", "ub"]:
+        raise TranslateError(f"projgr: unexpected parameters {args}")
+    body = [st for st in fn.body if not (isinstance(st, ast.Expr) and isinstance(st.value, ast.Constant))]
+    if len(body) != 1 or not isinstance(body[0], ast.Return):
+        raise TranslateError("projgr: expected a single return statement")
+    t, ty = VecExpr({a: (a, "v") for a in args}).tr(body[0].value)
+    if ty != "f":
+        raise TranslateError("projgr: the result is not a scalar")
+    L.append(f"Definition projgr (x grad lb ub : vec) : float := {t}.")
+    # is_any_inf: a single return statement over a sequence of arrays
+    fn = _func(tree, "is_any_inf")
+    body = [st for st in fn.body if not (isinstance(st, ast.Expr) and isinstance(st.value, ast.Constant))]
+    if [a.arg for a in fn.args.args] != ["arrs"] or len(body) != 1 or not isinstance(body[0], ast.Return):
+        raise TranslateError("is_any_inf: unexpected shape")
+    t, ty = VecExpr({"arrs": ("arrs", "lv")}).tr(body[0].value)
+    if ty != "b":
+        raise TranslateError("is_any_inf: the result is not a boolean")
+    L.append(f"Definition is_any_inf (arrs : list vec) : bool := {t}.")
+    # the call sites in main.py: is_boxed, the loop guard and the final test
+    mt = ast.parse(_src("main.py"))
+    mf = _func(mt, "minimize_lbfgsb")
+    boxed = [st for st in ast.walk(mf) if isinstance(st, (ast.Assign, ast.AnnAssign)) and ast.unparse(st.targets[0] if isinstance(st, ast.Assign) else st.target) == "is_boxed"]
+    if len(boxed) != 1:
+        raise TranslateError("is_boxed assignment not found")
+    L.append("From Coq Require Import String. Local Open Scope string_scope.")
+    L.append("Definition is_boxed_src : string := " + coq_string(ast.unparse(boxed[0].value)) + ".")
+    calls = sorted({ast.unparse(c) for c in ast.walk(mf) if isinstance(c, ast.Call) and ast.unparse(c.func) == "projgr"})
+    L.append("Definition projgr_call_sites_src : list string := [" + "; ".join(coq_string(c) for c in calls) + "].")
+    return "\n".join(L) + "\n"
+
+
+GENERATORS["Base.v"] = gen_base
+
+
 def generate():
     """Write the generated files. Returns a list of error strings (empty = ok)."""
     os.makedirs(OUT, exist_ok=True)
